@@ -754,6 +754,25 @@ class Interp:
     def ev_Name(self, n, env, ctx):
         return self.lookup_name(n.id, n, env, ctx)
 
+    def literal_string(self, v):
+        """the Python string a domain value stands for, when it is a literal (domains that keep constants override this)"""
+        return v.value if isinstance(v, StaticV) and isinstance(v.value, str) else None
+
+    def _namedtuple_fields(self, cref):
+        info = cref.module.classes.get(cref.name) if hasattr(cref.module, "classes") else None
+        if not info:
+            return None
+        for b in info["bases"]:
+            if isinstance(b, ast.Call) and (dotted_of(b.func) or "").split(".")[-1] == "namedtuple" and len(b.args) >= 2:
+                try:
+                    fl = ast.literal_eval(b.args[1])
+                except (ValueError, SyntaxError):
+                    return None
+                if isinstance(fl, str):
+                    fl = fl.replace(",", " ").split()
+                return list(fl) if all(isinstance(x, str) for x in fl) else None
+        return None
+
     def h_star_element(self, v, n, env, ctx):
         """`*x` in a display where x is not known item by item: the display holds x's items - abstractly, whatever x holds"""
         return v
@@ -1194,9 +1213,25 @@ class Interp:
             init = self.prog.method(fv.module, fv.name, "__init__")
             if init is not None:
                 self.call_repo(init, obj, args, kwargs, n, env, ctx)
-            elif not isinstance(obj, ObjV):
-                pass
+            elif isinstance(obj, ObjV):
+                # class X(namedtuple('X', [...])): no __init__ of its own - the arguments are the fields of the record
+                fields = self._namedtuple_fields(fv)
+                if fields is not None and not any(isinstance(a, tuple) and len(a) == 2 and a[0] == "*" for a in args) and "**" not in kwargs and \
+                        len(args) <= len(fields) and not (set(kwargs) - set(fields)):
+                    vals = dict(zip(fields, args))
+                    vals.update(kwargs)
+                    if set(vals) == set(fields):
+                        obj.attrs.update(vals)
             return obj
+        if isinstance(fv, ObjV):
+            call = self.prog.method(fv.module, fv.cls, "__call__")
+            if call is not None:
+                return self.call_repo(call, fv, args, kwargs, n, env, ctx)       # obj(...) is obj.__call__(...)
+        if isinstance(fv, ExtRef) and fv.dotted == "getattr" and len(args) == 2 and not kwargs and isinstance(args[0], ExtRef) and isinstance(n, ast.Call) and len(n.args) == 2:
+            # getattr(np.random, 'normal') with a name that is a literal on this path: the attribute itself
+            nm = self.literal_string(args[1])
+            if nm is not None and nm.isidentifier():
+                return self.global_value(args[0].dotted + "." + nm, n, ctx)
         if isinstance(fv, Closure):
             return self.call_closure(fv, args, kwargs, n, env, ctx)
         if isinstance(fv, NamedTupleCls):
